@@ -389,7 +389,7 @@ def normalise(x):
             return y
     elif k == "mem" and not x.get("arrow"):
         b = x["b"]
-        if isinstance(b, dict) and b.get("k") == "un" and b.get("op") == "*" and _is_ptr(b["e"]):
+        if isinstance(b, dict) and b.get("k") == "un" and b.get("op") == "*":      # the operand of * is a pointer, whatever its typedef is called
             y = dict(x)
             y["arrow"] = True
             y["b"] = b["e"]
